@@ -49,6 +49,49 @@ def ancestors(wb, n):
     return out
 
 
+def gen_chained(rng):
+    """A small random workbook (C01 generator) extended by a chain  x -> O1 -> m.. -> O2 [-> m.. -> O3]:
+    every O is a requested output, every m (one or two per link) is an ordinary formula cell that reads ONLY
+    the cell before it (and a literal), so the inputs - cells at or above x - reach the later outputs through
+    the earlier outputs and the cells between them, by no other path.  An output may read a second, unrelated
+    cell as well.  Returns (wb, [(inputs, outputs)]): 2-4 choices of 1-2 inputs, all chain outputs requested
+    (in any order) or the first and the last only."""
+    wb = wbgen.gen_workbook(rng, ncells=rng.randrange(3, 6), pool=wbgen.CLEAN_POOL + [0, 1])
+    base = wb.cells()
+
+    def row(i):
+        return wb.nodes[i]['row']
+
+    def unary(src):
+        sym, code = rng.choice([('+', 0), ('-', 1), ('*', 2), ('+', 0), ('*', 2), ('&', 5)])
+        z = rng.choice([1, 2, 3, 10])
+        if rng.random() < 0.6:
+            return wb.add_formula(f'=A{row(src)}{sym}{z}', [src], [3, code, [0, 0], [1, z]])
+        return wb.add_formula(f'={z}{sym}A{row(src)}', [src], [3, code, [1, z], [0, 0]])
+
+    def binary(src, other):
+        sym, code = rng.choice([('+', 0), ('-', 1), ('*', 2), ('&', 5)])
+        return wb.add_formula(f'=A{row(src)}{sym}A{row(other)}', [src, other], [3, code, [0, 0], [0, 1]])
+    x = rng.choice(base)
+    outs, cur = [], x
+    for link in range(rng.choice([2, 2, 3])):
+        if link:
+            for _ in range(rng.randrange(1, 3)):
+                cur = unary(cur)
+        other = rng.choice(base)
+        cur = unary(cur) if rng.random() < 0.65 or other == cur else binary(cur, other)
+        outs.append(cur)
+    above = [a for a in ancestors(wb, outs[0]) if wb.nodes[a]['kind'] != 'range']
+    choices = []
+    for _ in range(rng.randrange(2, 5)):
+        ins = tuple(rng.sample(above, 1 if len(above) < 2 or rng.random() < 0.6 else 2))
+        want = list(outs) if rng.random() < 0.75 else [outs[0], outs[-1]]
+        rng.shuffle(want)
+        if (ins, tuple(want)) not in choices:
+            choices.append((ins, tuple(want)))
+    return wb, choices
+
+
 def run(ctx):
     ensure_impl_on_path()
     from pycel import ExcelCompiler
@@ -60,6 +103,9 @@ def run(ctx):
         "exhaustive over single inputs/outputs for small workbooks, sampled beyond — x 3 rounds of re-assignment "
         "of every input from the value pool; compared: untrimmed, trimmed, trimmed+saved+loaded (yml/json/pkl), "
         "trimmed before vs after the first evaluate; distinct = distinct (workbook, inputs, outputs). "
+        "Chained-outputs stream (same legs, oracle and model): a small workbook extended by a chain x -> O1 -> m.. -> "
+        "O2 [-> m.. -> O3] where every O is requested and the cells m between them read only their predecessor, so "
+        "that the inputs (at or above x) reach the later outputs only THROUGH the earlier ones; 2-3 outputs per trim. "
         "Unbounded-range stream (oracle only): sheets with columns A, B (constants; B also formulas over A / the B "
         "cell above) and outputs in column D reading whole columns or rows (=SUM(B:B)+A1, A:B, 2:3, chained "
         "outputs), inputs among the constants the outputs read, so that the unbounded range is independent of the "
@@ -67,15 +113,23 @@ def run(ctx):
         "assignment rounds; the untrimmed model is also compared with a fresh compile of the workbook holding the "
         "values written so far")
     nwb = ctx.n(200, 2000)
+    nchain = ctx.n(70, 700)
     model_batch = []
     refused_batch = []
-    for k in range(nwb):
-        wb = wbgen.gen_workbook(rng, ncells=rng.randrange(5, 9), pool=wbgen.CLEAN_POOL + [0, 1, None])
+    for k in range(nwb + nchain):
+        if k >= nwb:
+            # chained outputs: one requested output feeds a later requested output through cells that are not outputs
+            wb, chain_choices = gen_chained(rng)
+        else:
+            wb, chain_choices = wbgen.gen_workbook(rng, ncells=rng.randrange(5, 9),
+                                                   pool=wbgen.CLEAN_POOL + [0, 1, None]), None
         desc = [(x['addr'], x.get('value'), x.get('text')) for x in wb.nodes]
         formulas = wb.formulas()
         if not formulas:
             continue
         choices = []
+        if chain_choices is not None:
+            choices, formulas = chain_choices, []
         for o in formulas:
             anc = [a for a in ancestors(wb, o) if wb.nodes[a]['kind'] != 'range']
             for a in anc:
@@ -129,7 +183,7 @@ def run(ctx):
             for f in os.listdir(ctx.work):
                 if f.startswith(f'trim{k}_{ci}'):
                     os.remove(os.path.join(ctx.work, f))
-            ctx.count((k, ci), kind='trim-early' if early else 'trim-late',
+            ctx.count((k, ci), kind=('trim-early' if early else 'trim-late') + (':chained-outputs' if k >= nwb else ''),
                       sample=dict(case, early=early))
             rounds = []
             for rnd in range(3):
